@@ -811,11 +811,23 @@ func decodeBlockRowDataInto(dst []byte, compressed []byte, block *DataBlockMetad
 	var rowData []byte
 	if cap(dst) >= block.UncompressedSize {
 		rowData = dst[:block.UncompressedSize]
+		if _, err := io.ReadFull(decompressor, rowData); err != nil {
+			return nil, fmt.Errorf("row data shorter than metadata UncompressedSize %d: %w", block.UncompressedSize, err)
+		}
 	} else {
-		rowData = make([]byte, block.UncompressedSize)
-	}
-	if _, err := io.ReadFull(decompressor, rowData); err != nil {
-		return nil, fmt.Errorf("row data shorter than metadata UncompressedSize %d: %w", block.UncompressedSize, err)
+		// No caller-provided buffer of that size: grow with the decoded data
+		// instead of allocating by the recorded size. UncompressedSize is
+		// only bounded below by validation, so corrupt (or CRC-consistent
+		// but wrong) metadata can set it to anything; allocating it up front
+		// panics or exhausts memory before a single byte is decoded.
+		var buf bytes.Buffer
+		if _, err := io.CopyN(&buf, decompressor, int64(block.UncompressedSize)); err != nil {
+			if err == io.EOF {
+				err = io.ErrUnexpectedEOF
+			}
+			return nil, fmt.Errorf("row data shorter than metadata UncompressedSize %d: %w", block.UncompressedSize, err)
+		}
+		rowData = buf.Bytes()
 	}
 	var probe [1]byte
 	switch _, err := io.ReadFull(decompressor, probe[:]); err {
@@ -881,7 +893,13 @@ func readPooledBlockRowData(file io.ReadSeeker, block *DataBlockMetadata) (rowDa
 		return rowData, func() { putScanBuffer(compressed) }, nil
 	}
 
-	dst := getScanBuffer(block.UncompressedSize)
+	// Only sizes the pool can serve are taken up front; anything larger (a
+	// huge block, or a bogus UncompressedSize) decodes into a buffer that
+	// grows with the data, see decodeBlockRowDataInto.
+	var dst []byte
+	if block.UncompressedSize <= 1<<scanBufferMaxShift {
+		dst = getScanBuffer(block.UncompressedSize)
+	}
 	rowData, err = decodeBlockRowDataInto(dst, compressed, block)
 	// The decompressors copy into rowData and their pooled state is Reset
 	// inside decode, so the compressed buffer is reusable as soon as decode
